@@ -197,3 +197,35 @@ def compare_journal(case, res, only=None, ignore_errs=False):
             seen.add(sig)
             uniq.append((sig, what))
     return uniq
+
+
+# ---------------------------------------------------------------- projection vs projection
+def canon_projection(res):
+    """canonical, comparable form of a ProjectJournal result: what the parser understood of a text,
+    without spelling (raw numbers, blanks around comments)"""
+    def amt(a):
+        return (canon_proj_amount(a), a["comm"], a["side"])
+
+    def ent(e):
+        d = dict(e)
+        d.pop("endLine", None)
+        for k in ("comment", "text"):
+            if k in d and isinstance(d[k], str):
+                d[k] = d[k].strip()
+        if "comments" in d:
+            d["comments"] = [x.strip() for x in d["comments"] or []]
+        if "amount" in d:
+            d["amount"] = [amt(a) for a in d["amount"] or []]
+        ps = []
+        for p in d.get("postings") or []:
+            q = dict(p)
+            q["comment"] = (q.get("comment") or "").strip()
+            q["amount"] = [amt(a) for a in q.get("amount") or []]
+            q["cost"] = [(c["total"], amt(c["amount"])) for c in q.get("cost") or []]
+            q["assert"] = [(c["strict"], amt(c["amount"])) for c in q.get("assert") or []]
+            q["tags"] = sorted(map(tuple, q.get("tags") or []))
+            ps.append(q)
+        d["postings"] = ps
+        d["tags"] = sorted(map(tuple, d.get("tags") or []))
+        return json.dumps(d, sort_keys=True, ensure_ascii=False, default=str)
+    return [ent(e) for e in res.get("entries") or []], sorted((e["line"], e["msg"]) for e in res.get("errs") or [])
